@@ -153,6 +153,12 @@ Theorem C09_draw_sub_image_direct : forall img a,
   (~ inside (ir_size img) a -> raw_draw_sub_image img a = []).
 Proof. exact draw_sub_image_direct. Qed.
 
+(* ... and directly on a SubImage of any depth: the area is re-based to the ROOT image and judged there (so an area
+   outside the SubImage's own box but inside the root shows root pixels; `sub_image()` never produces such a call) *)
+Theorem C09_draw_sub_image_direct_nested : forall d a,
+  d_draw_sub_image d a = raw_draw_sub_image (d_root d) (translate_rect a (d_origin d)).
+Proof. exact d_draw_sub_image_root. Qed.
+
 (* whatever the nesting depth, a drawable shows the root ImageRaw's pixel() at the accumulated offset, and only
    points inside the root's box *)
 Theorem C09_d_pixel_root : forall d p,
